@@ -497,6 +497,14 @@ def GlobalFn.rechecks (f : GlobalFn) : Bool := sectionsRecheck false f.sections
 of a lookup made under an earlier acquisition -/
 def globalsRecheck (f : GlobalFacts) : Bool := f.statics.all (fun s => s.fns.all GlobalFn.rechecks)
 
+/-- the decision that makes the inserting section of a get-or-insert ONE atomic
+step: every section that inserts was acquired in a mode that excludes everybody else -/
+def globalsInsertExclusive (f : GlobalFacts) : Bool :=
+  f.statics.all (fun s => s.fns.all (fun fn => fn.sections.all (fun sec =>
+    !(sec.ops.contains .insert) || (match sec.use.mode with
+      | some m => grantsExcl s.kind.lockKind m
+      | none => false))))
+
 /-- the decision about entries: what a process-global table hands out is frozen
 once inserted (no cell inside the protected value that a later registration or
 compilation could set): one runtime / compilation cannot leave a mark that
